@@ -228,3 +228,28 @@ Proof.
       repeat match goal with |- context [?a <? 0] => destruct (a <? 0) eqn:? end; try lia; reflexivity. }
   rewrite E. apply (set_sameshape b b); [now apply sameshape_refl| |]; unfold norm; destruct (y <? 0) eqn:E1, (x <? 0) eqn:E2; lia.
 Qed.
+
+(* ------------------------------------------------------------------ a concrete history (used by the Example of Props/C10.v);
+   the values are what /repo returned (harness/c10.py, geometry: pixel scales (2, 1), origin (0, 3)) *)
+Local Notation T := true.
+Local Notation F := false.
+Definition ex_m0 : mask := [[T; T; T]; [T; F; T]; [T; T; T]].
+Definition ex_m1 : mask := [[T; T; T]; [F; F; T]; [T; T; T]].       (* after  obj0[1, 0] = False *)
+Definition ex_m2 : mask := [[T; T; T]; [F; T; T]; [T; T; T]].       (* the copy after  obj1[-2, -2] = True *)
+Definition ex_g : geom := (2, 1, 0, 3).
+Definition ex_v0 : views :=
+  Build_views [0] [(1, 1)] [0] [(1, 1)] ex_m0 ex_m0 [[F; F; F]; [F; F; F]; [F; F; F]] [(0, 6)] ex_m0 [(0, 6)] ex_m0.
+Definition ex_v1 : views :=
+  Build_views [0; 1] [(1, 0); (1, 1)] [0; 1] [(1, 0); (1, 1)] ex_m1 ex_m1 [[F; F; F]; [F; F; F]; [F; F; F]]
+              [(0, 4); (0, 6)] ex_m1 [(0, 4); (0, 6)] ex_m1.
+Definition ex_v2 : views :=
+  Build_views [0] [(1, 0)] [0] [(1, 0)] ex_m2 ex_m2 [[F; F; T]; [F; F; T]; [F; F; T]] [(0, 4)] ex_m2 [(0, 4)] ex_m2.
+Definition ex_hist : list hstep :=
+  [HNew ex_m0; HRead 0 (KViews ex_m0 ex_g ex_v0); HEdit 0 1 0 F; HRead 0 (KViews ex_m1 ex_g ex_v1);
+   HCopy 0; HEdit 1 (-2) (-2) T; HRead 1 (KViews ex_m2 ex_g ex_v2); HRead 0 (KViews ex_m1 ex_g ex_v1)].
+(* what a cached view would give: after the edit the object shows the new contents but returns the old views *)
+Definition ex_hist_stale : list hstep :=
+  [HNew ex_m0; HRead 0 (KViews ex_m0 ex_g ex_v0); HEdit 0 1 0 F; HRead 0 (KViews ex_m1 ex_g ex_v0)].
+(* what a copy sharing its original's array would give: the edit of the copy shows up in the original *)
+Definition ex_hist_alias : list hstep :=
+  [HNew ex_m0; HEdit 0 1 0 F; HCopy 0; HEdit 1 (-2) (-2) T; HRead 1 (KViews ex_m2 ex_g ex_v2); HRead 0 (KViews ex_m2 ex_g ex_v2)].
